@@ -25,6 +25,15 @@ pub fn c16_c17(m: &mut Mon, w: &mut World, idx: usize) {
         m.rmodel = Some(std::rc::Rc::new(crate::refmodel::evaluate(&w.sc, &w.ids)));
     }
     let r = m.rmodel.clone().unwrap();
+    if m.on("C17") {
+        // canon arguments are checked against the peer's own stores and the values' embedded origin: no R needed
+        let reqs: Vec<(u32, interp::Req)> = w.runs[idx].out.reqs.iter().map(|(k, v)| (*k, v.clone())).collect();
+        for (id, rq) in reqs {
+            if crate::monitors4::c17_canon_args(m, w, idx, id, &rq) {
+                return;
+            }
+        }
+    }
     if !r.supported {
         m.count(&format!("R_unsupported:{}", r.why_unsupported));
         return;
